@@ -1058,6 +1058,11 @@ class Table(Vector):
 	def __invert__(self):
 		return Table(tuple(~col for col in self.cols()))
 
+	def __copy__(self):
+		# copy.copy(table) must not hand out a second table over the very same column objects
+		# (a write through either would show in both): a table copy always copies its columns
+		return self.copy()
+
 	# Reflected forms (scalar or sequence on the left): the same column-by-column rule with the
 	# operands swapped, so that names and shape are kept exactly as for `table <op> other`.
 	def __radd__(self, other):
